@@ -30,11 +30,19 @@ CONSTANTS Chans,          \* channel indices
           MaxBytes,       \* bytes the peer writes per (channel, stream)
           MaxMsg,         \* largest data message
           ReadSizes,      \* sizes asked for by recv / recv_stderr
-          Statuses,       \* exit status values the peer may send
+          StatusPick,     \* which rows of StatusTable (below) the peer may send as exit status
           AtomicCombine,  \* see above
           Mutation        \* "none" or the name of a deliberately wrong variant (sensitivity runs)
 
-None == -1                                    \* "no exit status" (statuses are naturals)
+\* An exit status is a uint32 (RFC 4254 6.10).  TLC integers are 32-bit signed, so a status is the pair
+\* <<high 16 bits, low 16 bits>>; the full range 0 .. 2^32-1 is Status.
+Limb == 0..65535
+Status == Limb \X Limb
+None == <<-1, -1>>                            \* "no exit status"
+\* 0, 3, 255, 256, 2^31-1, 2^31, 0xC000013A, 2^32-1  (a configuration file cannot hold tuples, it picks rows)
+StatusTable == << <<0, 0>>, <<0, 3>>, <<0, 255>>, <<0, 256>>, <<32767, 65535>>, <<32768, 0>>, <<49152, 314>>,
+                  <<65535, 65535>> >>
+Statuses == {StatusTable[i] : i \in StatusPick}
 Eps == {"out", "err"}                         \* endpoints at the reader = streams at the writer
 
 VARIABLES sent,        \* [Chans -> [Eps -> Nat]]   bytes written so far by the peer
@@ -163,7 +171,9 @@ FeedExtFeed ==
 
 ExitStatus ==
   /\ tpc = <<>> /\ wire # <<>> /\ Head(wire).s = "exit"
-  /\ status' = [status EXCEPT ![Head(wire).c] = IF Mutation = "status_low_byte" THEN Head(wire).pos % 2 ELSE Head(wire).pos]
+  /\ status' = [status EXCEPT ![Head(wire).c] = CASE Mutation = "status_low_limb" -> <<0, Head(wire).pos[2]>>       \* keeps the low 16 bits only
+                                              [] Mutation = "status_signed" /\ Head(wire).pos[1] >= 32768 -> <<-2, -2>>   \* top bit read as a sign: some other number
+                                              [] OTHER -> Head(wire).pos]
   /\ wire' = Tail(wire)
   /\ UNCHANGED <<sent, statusSent, buf, got, combine, swpc, moved, tpc, pstate, shut>>
 
@@ -236,7 +246,7 @@ Lossless == \A c \in Chans : Drained(c) =>
               /\ Bytes(Of(got[c].out, c, "out")) = sent[c].out
               /\ Bytes(Of(got[c].err, c, "err")) + Bytes(Of(got[c].out, c, "err")) = sent[c].err
 \* the exit status reported is the one the peer sent
-ExitStatusRight == \A c \in Chans : status[c] # None => status[c] = statusSent[c]
+ExitStatusRight == \A c \in Chans : status[c] # None => status[c] = statusSent[c] /\ status[c] \in Status
 
 TypeOK == /\ \A c \in Chans : sent[c].out \in 0..MaxBytes /\ sent[c].err \in 0..MaxBytes
           /\ \A c \in Chans : swpc[c] \in {"off", "moved", "on"}
